@@ -73,3 +73,35 @@ Proof.
   vm_compute. repeat split; reflexivity.
 Qed.
 Print Assumptions C04_uni_atomic_refuted_single_producer.
+
+(* ---- the other entry points (Chan/ChanX.v: reserve_slot + try_send_reserved, send_with_async) ----
+   Finding F2 (repaired in /repo by commit 7195018): try_send_reserved decided `wake_stream(len_after % MAX_STREAMS)`.
+   With MAX_STREAMS = 2 and one stream, a completely sequential history - the stream parks, then reserve + send-reserved -
+   wakes stream 1, which does not exist: the send answered true, the event is in the ring, the only stream is parked and
+   not notified, the producer is idle.  With the repaired rule (`len_after - 1`, the rule of `send`) the same history
+   delivers the event. *)
+From RM Require Import Reserve ChanX.
+Definition ux_crun wr N M k progs sched :=
+  fst (xrun N idz idz M k (wake_rule_atomic M) (wr M) (wake_async_code M) (xinit k (reinit_at 0)) (xprogs_of progs) sched).
+Definition f2_progs := [[XoBase (CoDrive 0)]; [XoReserve 0 100; XoSendRes 0]].
+Definition f2_sched := (repeat 0 14 ++ repeat 1 12 ++ repeat 0 20)%nat.
+
+Theorem C04_reserved_send_old_wake_rule_refuted :
+  let s := ux_crun wake_res_f2 4 2 1 f2_progs f2_sched in
+  map snd (xlog s) = [XSlot 0; XSent 0] /\ cyields (clog _ (xb s)) = [] /\
+  tail (ring (q _ (xb s))) - head (ring (q _ (xb s))) = 1 /\
+  cthr _ (xb s) 0%nat = XParked 0 /\ notified (m _ (xb s)) 0%nat = false /\ xthr s 1%nat = XN.
+Proof. vm_compute. repeat split; reflexivity. Qed.
+Print Assumptions C04_reserved_send_old_wake_rule_refuted.
+
+Theorem C04_reserved_send_repaired_rule_delivers_that_history :
+  let s := ux_crun wake_res_code 4 2 1 f2_progs f2_sched in
+  map snd (xlog s) = [XSlot 0; XSent 0] /\ cyields (clog _ (xb s)) = [100] /\
+  tail (ring (q _ (xb s))) - head (ring (q _ (xb s))) = 0.
+Proof. vm_compute. repeat split; reflexivity. Qed.
+Print Assumptions C04_reserved_send_repaired_rule_delivers_that_history.
+
+(* the repaired decision of try_send_reserved is the decision of the full-sync `send` (the one the no-lost-wake-up theorem is about) *)
+Theorem C04_reserved_send_rule_is_the_send_rule : forall M len, wake_res_code M len = wake_rule_fullsync M len.
+Proof. reflexivity. Qed.
+Print Assumptions C04_reserved_send_rule_is_the_send_rule.
